@@ -622,6 +622,13 @@ def check_property(prop, tier, seed):
             ok, coq_log = coq_make([target] + [m + ".vo" for m in extra_modules(prop)])
             if ok:
                 discharged = len(obligations)
+                if prop == "C12":
+                    # optional strengthening (all values of the C parameter types); its proof follows the
+                    # shape of src/ct.c, so a restructuring can defeat it: recorded, never a violation
+                    ok2, lg2 = coq_make(["Properties_C12full.vo"])
+                    notes.append("optional theorem C12_code_ct_init (clock-time bridge for ALL uint32_t / int8_t parameter values): "
+                                 + ("proved" if ok2 else "NOT proved for the current shape of src/ct.c; the finite bridges "
+                                    "C12_code_ct_init_all_times / _all_days (every value a 4A group can carry) are proved"))
             else:
                 # which obligations are still proved?  rebuild tells only per file: count zero for the file
                 notes.append("coq build of %s failed" % target)
